@@ -562,3 +562,666 @@ class TypePipelineWorld:
                 rlog = list(log)
             out = {"want": want, "toks": toks, "stored": stored, "loaded": loaded, "wlog": wlog, "rlog": rlog, "compile_only": compile_only}
         return out
+
+
+# ------------------------------------------------------------------------------------------------ C22
+class ConstructBuilder:
+    """Builds the real construct(s) of a ConstructGrammar derivation [k, a, b, c, d, e].  build() returns a list of
+    (label, compilable) - one statement, or the DDL elements of the derivation - and raises only what the constructors raise."""
+
+    def __init__(self):
+        import sqlalchemy as sa
+        self.sa = sa
+        m = self.m = sa.MetaData()
+        self.t = sa.Table("t", m, sa.Column("id", sa.Integer, primary_key=True), sa.Column("x", sa.Integer), sa.Column("y", sa.Integer),
+                          sa.Column("s", sa.String(30)), sa.Column("j", sa.JSON), sa.Column("ts", sa.DateTime), sa.Column("b", sa.Boolean),
+                          sa.Column("n", sa.Numeric(10, 2)))
+        self.u = sa.Table("u", m, sa.Column("id", sa.Integer, primary_key=True), sa.Column("t_id", sa.ForeignKey("t.id")),
+                          sa.Column("z", sa.Integer), sa.Column("s", sa.String(30)))
+        self.v = sa.Table("v", m, sa.Column("id", sa.Integer, primary_key=True), sa.Column("u_id", sa.ForeignKey("u.id")),
+                          sa.Column("w", sa.Integer, server_default=sa.text("0")), sa.Column("d", sa.Integer, default=7))
+
+    # ---------------------------------------------------------------------------------------------- SELECT
+    def _cols(self, a, frm):
+        sa, t, u = self.sa, self.t, self.u
+        f = sa.func
+        if a == "plain":
+            return [t.c.id, t.c.x]
+        if a == "star":
+            return [sa.literal_column("*")]
+        if a == "label":
+            return [t.c.id.label("ident"), (t.c.x + t.c.y).label("total")]
+        if a == "case":
+            return [sa.case((t.c.x > 1, "big"), (t.c.x == 1, "one"), else_="small"), sa.case({1: "a", 2: "b"}, value=t.c.y)]
+        if a == "cast":
+            return [sa.cast(t.c.x, sa.String), sa.type_coerce(t.c.s, sa.Integer), sa.cast(t.c.s, sa.Numeric(8, 3)), sa.try_cast(t.c.s, sa.Integer)]
+        if a == "func":
+            return [f.count(t.c.id), f.max(t.c.x), f.coalesce(t.c.x, 0), f.now(), f.lower(t.c.s), f.char_length(t.c.s), f.random()]
+        if a == "window":
+            return [t.c.id, f.row_number().over(partition_by=t.c.x, order_by=t.c.y.desc()),
+                    f.sum(t.c.y).over(order_by=t.c.id, rows=(None, 0)), f.rank().over(order_by=t.c.x, range_=(-1, 1))]
+        if a == "scalar":
+            return [t.c.id, sa.select(f.count(u.c.id)).where(u.c.t_id == t.c.id).scalar_subquery().label("n_u")]
+        if a == "concat":
+            return [t.c.s + "x", t.c.s.concat(t.c.s), f.concat(t.c.s, "a", "b"), sa.literal("a") + t.c.s]
+        if a == "tuple":
+            return [t.c.id, sa.tuple_(t.c.x, t.c.y) == sa.tuple_(1, 2)]
+        if a == "extract":
+            return [sa.extract("year", t.c.ts), sa.extract("dow", t.c.ts), f.date_trunc("month", t.c.ts)]
+        if a == "literal":
+            return [sa.literal(1), sa.literal("a'b"), sa.literal(None), sa.literal(1.5), sa.null(), sa.true(), sa.literal_column("1")]
+        if a == "bindtyped":
+            return [sa.bindparam("p1", 5, type_=sa.Integer), sa.bindparam("p2", type_=sa.String), sa.bindparam("p3", value=[1, 2], expanding=True)
+                    if False else sa.bindparam("p3", 2.5, type_=sa.Float)]
+        if a == "aggfilter":
+            return [f.count(t.c.id).filter(t.c.x > 1), f.sum(t.c.y).filter(t.c.b).over(partition_by=t.c.x)]
+        if a == "within_group":
+            return [f.percentile_cont(0.5).within_group(t.c.x), f.array_agg(t.c.x), f.aggregate_strings(t.c.s, ",")]
+        if a == "json_idx":
+            return [t.c.j["k"], t.c.j[("a", "b")], t.c.j["k"].as_string(), t.c.j[1].as_integer()]
+        if a == "collate":
+            return [sa.collate(t.c.s, "NOCASE"), t.c.s.collate("C").label("c2")]
+        if a == "not_bool":
+            return [~t.c.b, sa.not_(t.c.x > 1), t.c.b.is_(True), -t.c.x, t.c.b & (t.c.x > 0)]
+        if a == "arith":
+            return [t.c.x / t.c.y, t.c.x // 2, t.c.x % 3, t.c.x * (t.c.y - 1), t.c.n / 3, t.c.x.op("&")(1), f.pow(t.c.x, 2), t.c.x.bitwise_xor(3)]
+        if a == "coalesce_nullif":
+            return [f.coalesce(t.c.s, "z"), f.nullif(t.c.x, 0), f.greatest(t.c.x, t.c.y) if False else f.abs(t.c.x), t.c.x.is_distinct_from(t.c.y)]
+        raise KeyError(a)
+
+    def _from(self, b, stmt_cols):
+        """-> (froms applied to a select builder: function(select) -> select)"""
+        sa, t, u, v = self.sa, self.t, self.u, self.v
+        if b == "t":
+            return lambda s: s.select_from(t)
+        if b == "join":
+            return lambda s: s.select_from(t.join(u, t.c.id == u.c.t_id))
+        if b == "outer":
+            return lambda s: s.select_from(t.outerjoin(u))
+        if b == "full":
+            return lambda s: s.select_from(t.join(u, t.c.id == u.c.t_id, full=True))
+        if b == "selfjoin":
+            t2 = t.alias("t2")
+            return lambda s: s.select_from(t.join(t2, t.c.x == t2.c.id))
+        if b == "subq":
+            sq = sa.select(u.c.t_id, sa.func.count().label("cnt")).group_by(u.c.t_id).subquery("sq")
+            return lambda s: s.select_from(t.join(sq, sq.c.t_id == t.c.id)).add_columns(sq.c.cnt)
+        if b == "cte":
+            c = sa.select(u.c.t_id, u.c.z).where(u.c.z > 0).cte("c1")
+            return lambda s: s.select_from(t.join(c, c.c.t_id == t.c.id)).add_columns(c.c.z)
+        if b == "rcte":
+            c = sa.select(t.c.id, t.c.x).where(t.c.x.is_(None)).cte("tree", recursive=True)
+            c = c.union_all(sa.select(t.c.id, t.c.x).join(c, t.c.x == c.c.id))
+            return lambda s: s.select_from(t.join(c, c.c.id == t.c.id))
+        if b == "lateral":
+            lat = sa.select(u.c.z).where(u.c.t_id == t.c.id).limit(1).lateral("lat")
+            return lambda s: s.select_from(t.join(lat, sa.true())).add_columns(lat.c.z)
+        if b == "values":
+            vals = sa.values(sa.column("k", sa.Integer), sa.column("nm", sa.String), name="vv").data([(1, "a"), (2, "b")])
+            return lambda s: s.select_from(t.join(vals, vals.c.k == t.c.id)).add_columns(vals.c.nm)
+        if b == "alias":
+            ta = t.alias("ta")
+            return lambda s: s.select_from(t.join(ta, ta.c.id == t.c.id)).where(ta.c.x > 0)
+        if b == "join3":
+            return lambda s: s.select_from(t.join(u, t.c.id == u.c.t_id).outerjoin(v, v.c.u_id == u.c.id)).add_columns(v.c.w)
+        if b == "tablesample":
+            ts = sa.tablesample(t, sa.func.bernoulli(1), name="smp", seed=sa.func.random())
+            return lambda s: s.select_from(t.join(ts, ts.c.id == t.c.id))
+        if b == "func_table":
+            fn = sa.func.generate_series(1, 5).table_valued("value", name="gs")
+            return lambda s: s.select_from(t.join(fn, fn.c.value == t.c.id)).add_columns(fn.c.value)
+        raise KeyError(b)
+
+    def _crit(self, c, tab=None):
+        sa, t, u = self.sa, tab if tab is not None else self.t, self.u
+        T = self.t
+        if c == "none":
+            return None
+        if c == "eq":
+            return t.c.id == 5
+        if c == "in":
+            return t.c.id.in_([1, 2, 3])
+        if c == "in_empty":
+            return t.c.id.in_([])
+        if c == "notin":
+            return sa.and_(t.c.id.not_in([1, 2]), t.c.id.not_in([]))
+        if c == "in_subq":
+            return t.c.id.in_(sa.select(u.c.t_id).where(u.c.z > 0))
+        if c == "exists":
+            return sa.exists().where(u.c.t_id == t.c.id)
+        if c == "between":
+            return t.c.id.between(1, 10)
+        if c == "like":
+            return sa.or_(T.c.s.like("a%") if tab is None else t.c.id > 0, t.c.id.is_not(None))
+        if c == "ilike_esc":
+            return sa.or_(T.c.s.ilike("a/%%", escape="/"), T.c.s.contains("x_y", autoescape=True), T.c.s.icontains("q"))
+        if c == "tuple_in":
+            return sa.tuple_(t.c.id, t.c.id).in_([(1, 2), (3, 4)])
+        if c == "any":
+            return sa.or_(t.c.id == sa.any_(sa.select(u.c.z).scalar_subquery()), t.c.id > sa.all_(sa.select(u.c.z).scalar_subquery()))
+        if c == "regexp":
+            return sa.or_(T.c.s.regexp_match("^a"), T.c.s.regexp_replace("a", "b") == "b")
+        if c == "isdistinct":
+            return sa.and_(t.c.id.is_distinct_from(3), t.c.id.is_not_distinct_from(None))
+        if c == "null_cmp":
+            return sa.and_(t.c.id == None, t.c.id != None, t.c.id.is_(sa.null()))  # noqa: E711
+        if c == "bool_ops":
+            return sa.or_(sa.and_(t.c.id > 1, sa.not_(t.c.id < 5)), sa.and_(), sa.false(), ~sa.or_(t.c.id == 1, t.c.id == 2))
+        if c == "startswith_auto":
+            return sa.and_(T.c.s.startswith("a%", autoescape=True), T.c.s.endswith(sa.bindparam("sfx"), escape="^"), T.c.s.istartswith("b"))
+        if c == "in_expanding_tuple":
+            return sa.and_(t.c.id.in_(sa.bindparam("ids", expanding=True)), sa.tuple_(t.c.id, t.c.id).in_(sa.bindparam("tups", expanding=True)))
+        if c == "scalar_cmp":
+            return t.c.id > sa.select(sa.func.avg(u.c.z)).scalar_subquery()
+        if c == "true_false":
+            return sa.and_(sa.true(), sa.or_(sa.false(), t.c.id == 1))
+        if c == "correlated":
+            return t.c.id == sa.select(sa.func.max(u.c.t_id)).where(u.c.z == t.c.id).correlate(t).scalar_subquery()
+        raise KeyError(c)
+
+    def _mod(self, d, s):
+        sa, t = self.sa, self.t
+        if d == "none":
+            return s
+        if d == "group":
+            return s.group_by(t.c.x)
+        if d == "having":
+            return s.group_by(t.c.x).having(sa.func.count(t.c.id) > 1)
+        if d == "order":
+            return s.order_by(t.c.x.desc(), t.c.id)
+        if d == "order_nulls":
+            return s.order_by(t.c.x.desc().nulls_last(), t.c.y.asc().nulls_first())
+        if d == "limit":
+            return s.limit(5)
+        if d == "offset":
+            return s.order_by(t.c.id).offset(3)
+        if d == "limit_offset":
+            return s.order_by(t.c.id).limit(5).offset(2)
+        if d == "limit_expr":
+            return s.order_by(t.c.id).limit(sa.bindparam("lim", 5) + 1).offset(sa.literal_column("2"))
+        if d == "fetch":
+            return s.order_by(t.c.id).fetch(3).offset(1)
+        if d == "fetch_ties":
+            return s.order_by(t.c.id).fetch(3, with_ties=True)
+        if d == "fetch_percent":
+            return s.order_by(t.c.id).fetch(10, percent=True)
+        if d == "distinct":
+            return s.distinct()
+        if d == "distinct_on":
+            return s.distinct(t.c.x).order_by(t.c.x)
+        if d == "for_update":
+            return s.with_for_update()
+        if d == "for_update_of":
+            return s.with_for_update(of=t, nowait=True)
+        if d == "for_update_skip":
+            return s.with_for_update(skip_locked=True, key_share=True)
+        if d == "for_share_nowait":
+            return s.with_for_update(read=True, nowait=True, of=[t.c.id])
+        if d == "hint":
+            return s.with_hint(t, "USE INDEX (ix)", "mysql").with_hint(t, "WITH (NOLOCK)", "mssql").with_statement_hint("/* h */").prefix_with("SQL_NO_CACHE", dialect="mysql")
+        if d == "prefix_suffix":
+            return s.prefix_with("/* p */").suffix_with("/* s */")
+        if d == "order_label":
+            lab = (t.c.x + 1).label("xl")
+            return s.add_columns(lab).order_by(lab, sa.desc("xl"), sa.text("1"))
+        if d == "group_rollup":
+            return s.group_by(sa.func.rollup(t.c.x, t.c.y))
+        raise KeyError(d)
+
+    def _wrap(self, e, s):
+        sa, t, u = self.sa, self.t, self.u
+        other = sa.select(*[sa.literal(0)] * 1) if False else None
+        if e == "none":
+            return s
+        ncols = len(s.selected_columns) if hasattr(s, "selected_columns") else 2
+        filler = sa.select(*[sa.literal(0).label("f%d" % i) for i in range(ncols)])
+        if e == "union":
+            return sa.union(s, filler)
+        if e == "union_all_limit":
+            return sa.union_all(s, filler).order_by(sa.text("1")).limit(3)
+        if e == "intersect":
+            return sa.intersect(s, filler)
+        if e == "except":
+            return sa.except_all(s, filler) if False else sa.except_(s, filler)
+        if e == "subq_of":
+            sq = s.subquery("w")
+            return sa.select(sq).limit(2)
+        if e == "cte_of":
+            c = s.cte("wc")
+            return sa.select(sa.func.count()).select_from(c)
+        if e == "exists_of":
+            return sa.select(sa.exists(s.with_only_columns(sa.literal(1))).label("e"))
+        if e == "scalar_of":
+            return sa.select(u.c.id, s.with_only_columns(sa.func.count()).scalar_subquery().label("cnt"))
+        if e == "nested_union":
+            return sa.union_all(s, sa.union(filler, filler))
+        if e == "cte_nested":
+            inner = s.cte("inner_c")
+            outer = sa.select(sa.func.count().label("k")).select_from(inner).cte("outer_c", nesting=True)
+            return sa.select(outer.c.k)
+        if e == "alias_of_union":
+            al = sa.union_all(s, filler).subquery("un")
+            return sa.select(sa.func.count()).select_from(al)
+        if e == "in_select_of":
+            return sa.select(u.c.id).where(u.c.t_id.in_(s.with_only_columns(t.c.id)))
+        raise KeyError(e)
+
+    def _select(self, x):
+        sa = self.sa
+        cols = self._cols(x["a"], x["b"])
+        s = sa.select(*cols)
+        s = self._from(x["b"], cols)(s)
+        crit = self._crit(x["c"])
+        if crit is not None:
+            s = s.where(crit)
+        s = self._mod(x["d"], s)
+        return self._wrap(x["e"], s)
+
+    # ---------------------------------------------------------------------------------------------- DML
+    def _ret(self, st, r, tab):
+        sa = self.sa
+        if r == "none":
+            return st
+        if r == "cols":
+            return st.returning(tab.c.id, tab.c.x)
+        if r == "star":
+            return st.returning(tab)
+        if r == "expr":
+            return st.returning(tab.c.x + 1, sa.func.coalesce(tab.c.y, 0))
+        if r == "label":
+            return st.returning(tab.c.id.label("new_id"), (tab.c.x * 2).label("dbl"))
+        raise KeyError(r)
+
+    def _insert(self, x):
+        sa, t, u = self.sa, self.t, self.u
+        from sqlalchemy.dialects import mysql, postgresql, sqlite
+        ups = x["c"]
+        ctor = sa.insert
+        if ups.startswith("pg_"):
+            ctor = postgresql.insert
+        elif ups.startswith("sl_"):
+            ctor = sqlite.insert
+        elif ups.startswith("my_"):
+            ctor = mysql.insert
+        st = ctor(t)
+        a = x["a"]
+        if a == "values":
+            st = st.values(id=1, x=2, s="a")
+        elif a == "multi":
+            st = st.values([{"id": 1, "x": 2}, {"id": 2, "x": 3}])
+        elif a == "from_select":
+            st = st.from_select(["id", "x"], sa.select(u.c.id, u.c.z).where(u.c.z > 0))
+        elif a == "defaults":
+            st = st.values()
+        elif a == "exprs":
+            st = st.values(id=sa.func.coalesce(sa.select(sa.func.max(t.c.id)).scalar_subquery(), 0) + 1, x=sa.literal(2) * 3, s=sa.func.lower("A"),
+                           ts=sa.func.now())
+        elif a == "params_only":
+            st = st.values(id=sa.bindparam("pid"), x=sa.bindparam("px", type_=sa.Integer))
+        elif a == "from_select_cte":
+            c = sa.select(u.c.id, u.c.z).cte("src")
+            st = st.from_select(["id", "x"], sa.select(c.c.id, c.c.z))
+        elif a == "from_union":
+            st = st.from_select(["id", "x"], sa.union_all(sa.select(u.c.id, u.c.z), sa.select(sa.literal(9), sa.literal(9))))
+        elif a == "sql_default_cols":
+            st = ctor(self.v).values(id=1)
+        else:
+            raise KeyError(a)
+        tab = self.v if a == "sql_default_cols" else t
+        xcol = tab.c.x if tab is t else tab.c.w
+        if ups == "pg_nothing":
+            st = st.on_conflict_do_nothing()
+        elif ups == "pg_update":
+            st = st.on_conflict_do_update(index_elements=[tab.c.id], set_={xcol.name: st.excluded[xcol.name]})
+        elif ups == "pg_update_where":
+            st = st.on_conflict_do_update(index_elements=["id"], index_where=tab.c.id > 0, set_={xcol.name: 5}, where=xcol < 10)
+        elif ups == "pg_constraint":
+            st = st.on_conflict_do_update(constraint="pk_t", set_={xcol.name: 1})
+        elif ups == "pg_excluded_expr":
+            st = st.on_conflict_do_update(index_elements=["id"], set_={xcol.name: st.excluded[xcol.name] + xcol, "id": sa.func.abs(st.excluded.id)})
+        elif ups == "sl_nothing":
+            st = st.on_conflict_do_nothing(index_elements=["id"])
+        elif ups == "sl_update":
+            st = st.on_conflict_do_update(index_elements=[tab.c.id], set_={xcol.name: st.excluded[xcol.name]})
+        elif ups == "sl_update_where":
+            st = st.on_conflict_do_update(index_elements=["id"], index_where=tab.c.id > 0, set_={xcol.name: 5}, where=xcol < 10)
+        elif ups == "my_dup":
+            st = st.on_duplicate_key_update(**{xcol.name: 5})
+        elif ups == "my_dup_expr":
+            st = st.on_duplicate_key_update(**{xcol.name: st.inserted[xcol.name] + 1})
+        elif ups != "none":
+            raise KeyError(ups)
+        if tab is t:
+            st = self._ret(st, x["b"], t)
+        elif x["b"] != "none":
+            st = st.returning(tab.c.id, tab.c.w)
+        d = x["d"]
+        if d == "cte":
+            c = sa.select(u.c.id).where(u.c.z > 1).cte("pre")
+            st = st.add_cte(c)
+        elif d == "prefix":
+            st = st.prefix_with("OR REPLACE", dialect="sqlite").prefix_with("IGNORE", dialect="mysql")
+        elif d == "hint":
+            st = st.with_hint("WITH (PAGLOCK)", dialect_name="mssql")
+        elif d == "inline":
+            st = st.inline()
+        elif d == "return_defaults":
+            st = st.return_defaults() if x["b"] == "none" else st
+        elif d == "sort_by_parameter_order":
+            if x["b"] != "none":
+                st = ctor(tab).values(id=1).returning(tab.c.id, sort_by_parameter_order=True)
+        elif d != "none":
+            raise KeyError(d)
+        return st
+
+    def _update(self, x):
+        sa, t, u = self.sa, self.t, self.u
+        st = sa.update(t)
+        a = x["a"]
+        if a == "values":
+            st = st.values(x=5, s="q")
+        elif a == "expr":
+            st = st.values(x=t.c.x + 1, s=sa.func.upper(t.c.s), ts=sa.func.now())
+        elif a == "subq":
+            st = st.values(x=sa.select(sa.func.max(u.c.z)).where(u.c.t_id == t.c.id).scalar_subquery())
+        elif a == "from_":
+            st = st.values(x=u.c.z).where(u.c.t_id == t.c.id)
+        elif a == "ordered":
+            st = st.ordered_values((t.c.y, 1), (t.c.x, t.c.y + 1))
+        elif a == "case":
+            st = st.values(x=sa.case((t.c.y > 1, 1), else_=0))
+        elif a == "self_ref":
+            st = st.values({t.c.x: t.c.y, t.c.y: t.c.x})
+        elif a == "tuple_bind":
+            st = st.values(x=sa.bindparam("newx"), j={"a": [1, 2]}, b=True, n=1.5)
+        elif a == "null_set":
+            st = st.values(x=None, s=sa.null())
+        else:
+            raise KeyError(a)
+        crit = self._crit(x["b"])
+        if crit is not None:
+            st = st.where(crit)
+        st = self._ret(st, x["c"], t)
+        d = x["d"]
+        if d == "cte":
+            c = sa.select(u.c.t_id).where(u.c.z > 1).cte("tgt")
+            st = st.where(t.c.id.in_(sa.select(c.c.t_id)))
+        elif d == "prefix":
+            st = st.prefix_with("LOW_PRIORITY", dialect="mysql").prefix_with("/* all */")
+        elif d == "hint":
+            st = st.with_hint("WITH (PAGLOCK)", dialect_name="mssql")
+        elif d == "limit_my":
+            st = st.with_dialect_options(mysql_limit=5)
+        elif d == "return_defaults":
+            st = st.return_defaults() if x["c"] == "none" else st
+        elif d == "from_cte":
+            c = sa.select(u.c.t_id, u.c.z).cte("src")
+            st = st.values(y=c.c.z).where(c.c.t_id == t.c.id)
+        elif d != "none":
+            raise KeyError(d)
+        return st
+
+    def _delete(self, x):
+        sa, t, u = self.sa, self.t, self.u
+        st = sa.delete(t)
+        crit = self._crit(x["a"])
+        if crit is not None:
+            st = st.where(crit)
+        st = self._ret(st, x["b"], t)
+        d = x["c"]
+        if d == "cte":
+            c = sa.select(u.c.t_id).where(u.c.z > 1).cte("doomed")
+            st = st.where(t.c.id.in_(sa.select(c.c.t_id)))
+        elif d == "using":
+            st = st.where(u.c.t_id == t.c.id).where(u.c.z > 3)
+        elif d == "prefix":
+            st = st.prefix_with("LOW_PRIORITY", dialect="mysql").prefix_with("/* all */")
+        elif d == "hint":
+            st = st.with_hint("WITH (PAGLOCK)", dialect_name="mssql")
+        elif d == "limit_my":
+            st = st.with_dialect_options(mysql_limit=5)
+        elif d != "none":
+            raise KeyError(d)
+        return st
+
+    # ---------------------------------------------------------------------------------------------- DDL
+    def _ddl(self, x):
+        sa = self.sa
+        from sqlalchemy import schema as sch
+        nm = x["d"]
+        conv = {"ix": "ix_%(column_0_label)s", "uq": "uq_%(table_name)s_%(column_0_name)s", "ck": "ck_%(table_name)s_%(constraint_name)s",
+                "fk": "fk_%(table_name)s_%(column_0_name)s_%(referred_table_name)s", "pk": "pk_%(table_name)s"}
+        m = sa.MetaData(naming_convention=conv if nm == "convention" else None, schema="sch1" if nm in ("schema", "schema_translate") else None)
+        long_ = "a_rather_long_identifier_name_that_goes_on_and_on_past_thirty_chars"
+
+        def N(base):
+            if nm == "quoted":
+                return {"p": "Par ent", "c": "select", "g": 'we"ird'}.get(base, base.upper() + " x")
+            if nm == "long_names":
+                return base + "_" + long_
+            return base
+        g, feat = x["a"], x["b"]
+        I = sa.Integer
+        pref = (lambda n: ("sch1." + n) if m.schema else n)
+        extra_cols, targs, tkw = [], [], {}
+        if feat == "index":
+            extra_cols = [sa.Column("ival", I, index=True)]
+        elif feat == "unique":
+            extra_cols = [sa.Column("uval", I, unique=True), sa.Column("u2", I)]
+            targs = [sa.UniqueConstraint("uval", "u2", name=None if nm == "convention" else "uq_two")]
+        elif feat == "check":
+            extra_cols = [sa.Column("cval", I, sa.CheckConstraint("cval > 0", name="cval_pos"))]
+            targs = [sa.CheckConstraint("cval < 100", name="ck_upper")]
+        elif feat == "identity":
+            extra_cols = [sa.Column("idn", I, sa.Identity(start=5, increment=2, always=True, cycle=True))]
+        elif feat == "computed":
+            extra_cols = [sa.Column("cv", I), sa.Column("cc", I, sa.Computed("cv * 2", persisted=True)), sa.Column("cd", I, sa.Computed("cv + 1"))]
+        elif feat == "server_default":
+            extra_cols = [sa.Column("sd1", I, server_default="5"), sa.Column("sd2", sa.String(10), server_default=sa.text("'x'")),
+                          sa.Column("sd3", sa.DateTime, server_default=sa.func.now()), sa.Column("sd4", sa.Boolean, server_default=sa.true())]
+        elif feat == "comment":
+            extra_cols = [sa.Column("cm", I, comment="it's a column")]
+            tkw = {"comment": "table's comment"}
+        elif feat == "sequence":
+            extra_cols = [sa.Column("sq", I, sa.Sequence(N("seq1"), start=3, increment=2, metadata=m))]
+        elif feat in ("func_index", "partial_index"):
+            extra_cols = [sa.Column("fv", sa.String(20)), sa.Column("fw", I)]
+        elif feat == "types_wide":
+            extra_cols = [sa.Column("c1", sa.Numeric(12, 4)), sa.Column("c2", sa.Float(53)), sa.Column("c3", sa.Text), sa.Column("c4", sa.LargeBinary),
+                          sa.Column("c5", sa.Date), sa.Column("c6", sa.Time), sa.Column("c7", sa.DateTime(timezone=True)), sa.Column("c8", sa.Interval),
+                          sa.Column("c9", sa.JSON), sa.Column("c10", sa.Uuid), sa.Column("c11", sa.BigInteger), sa.Column("c12", sa.SmallInteger),
+                          sa.Column("c13", sa.Unicode(40)), sa.Column("c14", sa.UnicodeText), sa.Column("c15", sa.String), sa.Column("c16", sa.Double),
+                          sa.Column("c17", sa.PickleType), sa.Column("c18", sa.ARRAY(sa.Integer))]
+        elif feat == "enum_bool":
+            extra_cols = [sa.Column("e1", sa.Enum("a", "b", "it's", name="en1")), sa.Column("e2", sa.Enum("x", "y", native_enum=False, create_constraint=True, name="en2")),
+                          sa.Column("b1", sa.Boolean(create_constraint=True, name="b1ck")), sa.Column("e3", sa.Enum("p", "q", name="en3", length=20, native_enum=False))]
+        elif feat == "autoinc_false":
+            pass
+        elif feat == "temp_prefix":
+            tkw = {"prefixes": ["TEMPORARY"]}
+        elif feat == "dialect_kw":
+            tkw = {"mysql_engine": "InnoDB", "mysql_charset": "utf8mb4", "sqlite_autoincrement": True, "postgresql_with_oids": False,
+                   "mssql_clustered": None} if False else {"mysql_engine": "InnoDB", "mysql_charset": "utf8mb4", "sqlite_autoincrement": True}
+        pk = sa.Column("id", I, primary_key=True, autoincrement=False) if feat == "autoinc_false" else sa.Column("id", I, primary_key=True)
+        if feat == "composite_pk":
+            pcols = [sa.Column("id", I, primary_key=True), sa.Column("id2", I, primary_key=True)]
+        else:
+            pcols = [pk]
+        tabs = []
+        P = sa.Table(N("p"), m, *(pcols + extra_cols + targs), **tkw)
+        tabs.append(P)
+        pid = P.c.id
+        if feat in ("func_index", "partial_index"):
+            if feat == "func_index":
+                sa.Index(N("ix_fn"), sa.func.lower(P.c.fv), P.c.fw.desc())
+            else:
+                sa.Index(N("ix_part"), P.c.fw, postgresql_where=P.c.fw > 0, sqlite_where=P.c.fw > 0, mssql_where=P.c.fw > 0, unique=True)
+        fkname = None if nm == "convention" else "fk_c_p"
+        if g == "fk":
+            tabs.append(sa.Table(N("c"), m, sa.Column("id", I, primary_key=True), sa.Column("p_id", I, sa.ForeignKey(pid, name=fkname))))
+        elif g == "selfref":
+            P.append_column(sa.Column("parent_id", I, sa.ForeignKey(pid, name=None if nm == "convention" else "fk_self")))
+        elif g == "cycle":
+            C = sa.Table(N("c"), m, sa.Column("id", I, primary_key=True), sa.Column("p_id", I, sa.ForeignKey(pid, name=fkname)))
+            P.append_column(sa.Column("c_id", I, sa.ForeignKey(C.c.id, name="fk_p_c", use_alter=True)))
+            tabs.append(C)
+        elif g == "composite_fk":
+            Q = sa.Table(N("q"), m, sa.Column("a", I, primary_key=True), sa.Column("b", I, primary_key=True))
+            tabs.append(Q)
+            tabs.append(sa.Table(N("c"), m, sa.Column("id", I, primary_key=True), sa.Column("qa", I), sa.Column("qb", I),
+                                 sa.ForeignKeyConstraint(["qa", "qb"], [Q.c.a, Q.c.b], name=None if nm == "convention" else "fk_c_q")))
+        elif g == "chain3":
+            C = sa.Table(N("c"), m, sa.Column("id", I, primary_key=True), sa.Column("p_id", I, sa.ForeignKey(pid, name=fkname)))
+            G = sa.Table(N("g"), m, sa.Column("id", I, primary_key=True), sa.Column("c_id", I, sa.ForeignKey(C.c.id, name=None if nm == "convention" else "fk_g_c")))
+            tabs += [C, G]
+        elif g == "fk_ondelete":
+            tabs.append(sa.Table(N("c"), m, sa.Column("id", I, primary_key=True),
+                                 sa.Column("p_id", I, sa.ForeignKey(pid, name=fkname, ondelete="CASCADE", onupdate="SET NULL"))))
+        elif g == "fk_deferrable":
+            tabs.append(sa.Table(N("c"), m, sa.Column("id", I, primary_key=True),
+                                 sa.Column("p_id", I, sa.ForeignKey(pid, name=fkname, deferrable=True, initially="DEFERRED", match="FULL"))))
+        elif g == "m2m":
+            C = sa.Table(N("c"), m, sa.Column("id", I, primary_key=True))
+            tabs += [C, sa.Table(N("pc"), m, sa.Column("p_id", I, sa.ForeignKey(pid, name=None if nm == "convention" else "fk_pc_p"), primary_key=True),
+                                 sa.Column("c_id", I, sa.ForeignKey(C.c.id, name=None if nm == "convention" else "fk_pc_c"), primary_key=True))]
+        elif g != "single":
+            raise KeyError(g)
+        op = x["c"]
+        out = []
+        if op == "create_table":
+            out = [("CreateTable(%s)" % tb.name, sch.CreateTable(tb)) for tb in tabs]
+        elif op == "drop_table":
+            out = [("DropTable(%s)" % tb.name, sch.DropTable(tb)) for tb in tabs]
+        elif op == "create_if_not_exists":
+            out = [("CreateTable(%s, if_not_exists)" % tb.name, sch.CreateTable(tb, if_not_exists=True)) for tb in tabs]
+        elif op == "drop_if_exists":
+            out = [("DropTable(%s, if_exists)" % tb.name, sch.DropTable(tb, if_exists=True)) for tb in tabs]
+        elif op in ("create_all", "drop_all"):
+            out = [(op, ("metadata", m, op))]
+        elif op in ("create_index", "drop_index"):
+            for tb in tabs:
+                for ix in sorted(tb.indexes, key=lambda i: str(i.name)):
+                    out.append(("%s(%s)" % (op, ix.name), sch.CreateIndex(ix) if op == "create_index" else sch.DropIndex(ix)))
+        elif op in ("add_constraint", "drop_constraint"):
+            for tb in tabs:
+                for cons in sorted(tb.constraints, key=lambda c: (type(c).__name__, str(c.name))):
+                    if isinstance(cons, sa.PrimaryKeyConstraint):
+                        continue
+                    out.append(("%s(%s %s)" % (op, type(cons).__name__, cons.name),
+                                sch.AddConstraint(cons) if op == "add_constraint" else sch.DropConstraint(cons, cascade=True)))
+        elif op == "create_sequence":
+            for sq in m._sequences.values():
+                out += [("CreateSequence", sch.CreateSequence(sq)), ("DropSequence", sch.DropSequence(sq, if_exists=True))]
+        elif op == "set_comment":
+            out = [("SetTableComment", sch.SetTableComment(P)), ("DropTableComment", sch.DropTableComment(P)),
+                   ("SetColumnComment", sch.SetColumnComment(P.c.cm)), ("DropColumnComment", sch.DropColumnComment(P.c.cm))]
+        else:
+            raise KeyError(op)
+        return out
+
+    def build(self, x):
+        k = x["k"]
+        if k == "select":
+            return [("select", self._select(x))]
+        if k == "insert":
+            return [("insert", self._insert(x))]
+        if k == "update":
+            return [("update", self._update(x))]
+        if k == "delete":
+            return [("delete", self._delete(x))]
+        if k == "ddl":
+            return self._ddl(x)
+        raise KeyError(k)
+
+
+def dialect_variants():
+    """-> list of (name, base dialect name, factory)"""
+    from sqlalchemy.dialects import mssql, mysql, oracle, postgresql, sqlite
+    from sqlalchemy.dialects.mysql import mariadb as _mariadb
+    from sqlalchemy.dialects.postgresql import asyncpg as _asyncpg
+    from sqlalchemy.dialects.sqlite import aiosqlite as _aiosqlite
+
+    def ver(factory, **attrs):
+        def make():
+            d = factory()
+            for k, v in attrs.items():
+                setattr(d, k, v)
+            return d
+        return make
+
+    def mssql_old():
+        d = mssql.dialect()
+        d.server_version_info = (10, 0)
+        d._supports_offset_fetch = False
+        return d
+
+    def oracle_old():
+        d = oracle.dialect()
+        d.server_version_info = (11, 2)
+        d._supports_offset_fetch = False
+        d.use_ansi = True
+        return d
+
+    return [("sqlite", "sqlite", sqlite.dialect), ("sqlite_numeric", "sqlite", lambda: sqlite.dialect(paramstyle="numeric")),
+            ("postgresql", "postgresql", postgresql.dialect), ("postgresql_asyncpg", "postgresql", _asyncpg.dialect),
+            ("postgresql_9", "postgresql", ver(postgresql.dialect, server_version_info=(9, 2))),
+            ("mysql", "mysql", mysql.dialect), ("mysql_56", "mysql", ver(mysql.dialect, server_version_info=(5, 6, 40))),
+            ("mysql_8", "mysql", ver(mysql.dialect, server_version_info=(8, 0, 30))),
+            ("mariadb", "mariadb", _mariadb.MariaDBDialect),
+            ("mariadb_10_6", "mariadb", ver(_mariadb.MariaDBDialect, server_version_info=(10, 6, 5))),
+            ("mssql", "mssql", mssql.dialect), ("mssql_2008", "mssql", mssql_old),
+            ("mssql_2019", "mssql", ver(mssql.dialect, server_version_info=(15, 0), _supports_offset_fetch=True)),
+            ("oracle", "oracle", oracle.dialect), ("oracle_11", "oracle", oracle_old),
+            ("oracle_noansi", "oracle", lambda: oracle.dialect(use_ansi=False))]
+
+
+COMPILE_VARIANTS = [("plain", {}, {}), ("literal_binds", {"compile_kwargs": {"literal_binds": True}}, {}),
+                    ("render_postcompile", {"compile_kwargs": {"render_postcompile": True}}, {}),
+                    ("schema_translate", {"schema_translate_map": {None: "tr", "sch1": "tr2"}}, {}),
+                    ("schema_translate_render", {"schema_translate_map": {None: "tr", "sch1": "tr2"}, "compile_kwargs": {"render_schema_translate": True}}, {})]
+
+DOCUMENTED = ("CompileError", "UnsupportedCompilationError", "ArgumentError", "InvalidRequestError", "NotImplementedError")
+
+
+def compile_everywhere(builder, x, dialects, variants):
+    """-> (ncompiled, nraised_documented, [(sig, text)] for undocumented exception classes, constructor_error or None)"""
+    import traceback
+    from sqlalchemy import exc
+    from sqlalchemy.engine.mock import MockConnection
+    try:
+        with warnings.catch_warnings():
+            warnings.simplefilter("ignore")
+            items = builder.build(x)
+    except (exc.ArgumentError, exc.InvalidRequestError, exc.CompileError, NotImplementedError) as e:
+        return 0, 0, [], "%s: %s" % (type(e).__name__, str(e)[:160])
+    n = doc = 0
+    bad = []
+    for dname, base, dialect in dialects:
+        for vname, kw, _ in variants:
+            for label, item in items:
+                n += 1
+                try:
+                    with warnings.catch_warnings():
+                        warnings.simplefilter("ignore")
+                        if isinstance(item, tuple):
+                            _, meta, op = item
+                            if "compile_kwargs" in kw:
+                                continue            # create_all has no compile flags
+                            stmts = []
+                            ckw = {"schema_translate_map": kw["schema_translate_map"]} if "schema_translate_map" in kw else {}
+                            eng = MockConnection(dialect, lambda sql, *a, **k: stmts.append(str(sql.compile(dialect=dialect, **ckw))))
+                            getattr(meta, op)(eng, checkfirst=False)
+                        else:
+                            str(item.compile(dialect=dialect, **kw))
+                except (exc.CompileError, exc.ArgumentError, exc.InvalidRequestError, NotImplementedError):
+                    doc += 1
+                except Exception as e:
+                    tb = traceback.extract_tb(e.__traceback__)
+                    fr = [f for f in tb if "/sqlalchemy/" in f.filename]
+                    where = "%s:%s" % (fr[-1].filename.split("/sqlalchemy/")[-1], fr[-1].name) if fr else "?"
+                    sig = {"spec": "ConstructGrammar", "action": "compile", "exc": type(e).__name__, "dialect": base, "dialect_variant": dname,
+                           "compile_variant": vname, "kind": x["k"], "where": where,
+                           "derivation": "|".join(x[f] for f in "kabcde"), "element": label}
+                    bad.append((sig, "%s on %s/%s, %s [%s]: %s: %s (raised in %s)" % (
+                        label, dname, vname, x["k"], sig["derivation"], type(e).__name__, str(e)[:200], where)))
+    return n, doc, bad, None
